@@ -80,8 +80,19 @@ pub fn sheet_xml(p: &str, sh: &Value) -> String {
     x.push_str(&format!("<{} {} xmlns:r=\"{}\">", q(p, "worksheet"), nsdecl(p), REL_NS));
     let toks: Vec<Value> = sh["tokens"].as_array().cloned().unwrap_or_default();
     let mut in_data = false;
-    let mut open_data = |x: &mut String, in_data: &mut bool| {
+    // what every real worksheet part has around its data: sheetViews (with nested elements, i.e. end tags
+    // before sheetData), sheetFormatPr and, after the data, pageMargins -- unless the token list places
+    // ignorable elements itself ("ign") or the sheet asks for a bare part ("bare": true)
+    let auto_prologue = !sh["bare"].as_bool().unwrap_or(false) && !toks.iter().any(|t| t["k"] == "ign");
+    let prologue = if auto_prologue {
+        format!("<{sv}><{v} workbookViewId=\"0\"><{s} activeCell=\"A1\" sqref=\"A1\"/></{v}></{sv}><{f} defaultRowHeight=\"15\"/>",
+                sv = q(p, "sheetViews"), v = q(p, "sheetView"), s = q(p, "selection"), f = q(p, "sheetFormatPr"))
+    } else {
+        String::new()
+    };
+    let open_data = |x: &mut String, in_data: &mut bool| {
         if !*in_data {
+            x.push_str(&prologue);
             x.push_str(&format!("<{}>", q(p, "sheetData")));
             *in_data = true;
         }
@@ -161,6 +172,7 @@ pub fn sheet_xml(p: &str, sh: &Value) -> String {
         }
     }
     if !in_data {
+        x.push_str(&prologue);
         x.push_str(&format!("<{}/>", q(p, "sheetData")));
     } else {
         x.push_str(&format!("</{}>", q(p, "sheetData")));
@@ -173,6 +185,9 @@ pub fn sheet_xml(p: &str, sh: &Value) -> String {
             }
             x.push_str(&format!("</{}>", q(p, "mergeCells")));
         }
+    }
+    if auto_prologue {
+        x.push_str(&format!("<{} left=\"0.7\" right=\"0.7\" top=\"0.75\" bottom=\"0.75\" header=\"0.3\" footer=\"0.3\"/>", q(p, "pageMargins")));
     }
     if let Some(tb) = sh["tables"].as_array() {
         if !tb.is_empty() {
